@@ -12,6 +12,7 @@ global size_of usize == 8;
 
 #[verifier::external_body]
 struct SError { _p: u8 }
+//@ stubs sst/src/lib.rs -> SError
 
 struct Ent { key: Seq<u8>, ts: u64, val: Option<Seq<u8>> }
 
